@@ -1868,6 +1868,99 @@ def _methodtype(it, a, k):
     return Bound(a[0], a[1])
 
 
+class PartialVal:
+    """functools.partial"""
+
+    def __init__(self, fn, args, kwargs):
+        self.fn, self.args, self.kwargs = fn, list(args), dict(kwargs)
+
+    def pyvc_call(self, it, args, kwargs):
+        return it.call(self.fn, self.args + list(args), {**self.kwargs, **kwargs})
+
+    def pyvc_truth(self, it):
+        return True
+
+    def __repr__(self):
+        return f'partial({self.fn!r}, {self.args!r})'
+
+
+class LazyDict:
+    """Dictionary of unknown size (symbolic pre-state) with lazy initialisation: the first lookup of a key that is
+    not provably one of the keys seen so far forks on `key present?`; when present its value is materialised
+    by `factory(key)`.  Entries never looked up are never touched (frame for free)."""
+
+    def __init__(self, ctx, name, factory, key_kind='int'):
+        self.ctx = ctx
+        self.name = name
+        self.factory = factory
+        self.entries: list = []      # [key, value, present: bool]
+        self.key_kind = key_kind
+        self.log: list = []
+
+    def _find(self, it, key, create=True):
+        k = unbox(key)
+        for e in self.entries:
+            eq = _eq(it, e[0], k)
+            if eq is True or (eq is not False and it.ctx.branch(eq)):
+                return e
+        if not create:
+            return None
+        present = it.ctx.fresh_bool(f'{self.name}.has')
+        if it.ctx.branch(present):
+            e = [k, self.factory(it, k), True]
+        else:
+            e = [k, None, False]
+        self.entries.append(e)
+        return e
+
+    def pyvc_getitem(self, it, key):
+        e = self._find(it, key)
+        if not e[2]:
+            it.throw('KeyError', key)
+        return e[1]
+
+    def pyvc_setitem(self, it, key, value):
+        e = self._find(it, key)
+        self.log.append(('set', e[0], value, e[2]))
+        e[1], e[2] = value, True
+
+    def pyvc_delitem(self, it, key):
+        e = self._find(it, key)
+        if not e[2]:
+            it.throw('KeyError', key)
+        self.log.append(('del', e[0], e[1]))
+        e[1], e[2] = None, False
+
+    def pyvc_contains(self, it, key):
+        return self._find(it, key)[2]
+
+    def pyvc_getattr(self, it, name):
+        if name == 'pop':
+            def pop(it2, a, k):
+                e = self._find(it2, a[0])
+                if not e[2]:
+                    if len(a) > 1:
+                        return a[1]
+                    it2.throw('KeyError', a[0])
+                v = e[1]
+                self.log.append(('del', e[0], v))
+                e[1], e[2] = None, False
+                return v
+            return Native('dict.pop', pop)
+        if name == 'get':
+            def get(it2, a, k):
+                e = self._find(it2, a[0])
+                return e[1] if e[2] else (a[1] if len(a) > 1 else None)
+            return Native('dict.get', get)
+        raise Unsupported(f'LazyDict.{name}')
+
+    def pyvc_truth(self, it):
+        raise Unsupported('truth value of a dictionary of unknown size')
+
+    def __repr__(self):
+        return f'<LazyDict {self.name} {[(e[0], e[2]) for e in self.entries]}>'
+
+
 def install(it):
     N = it.natives
 
@@ -1902,6 +1995,7 @@ def install(it):
     reg('math.ceil', _math_ceil)
     reg('math.floor', _math_floor)
     reg('builtins.setattr', _setattr)
+    reg('functools.partial', lambda it2, a, k: PartialVal(a[0], a[1:], k))
     reg('inspect.getmembers', _inspect_getmembers)
     reg('inspect.ismethod', lambda it2, a, k: isinstance(a[0], Bound))
     reg('types.MethodType', _methodtype)
